@@ -642,7 +642,18 @@ var otherLetters = []rune("éßΩяあ한ｄÀ")
 var asciiLetters = []rune("abcdefghijklmnopqrstuvwxyzABCDEFGHIJKLMNOPQRSTUVWXYZ")
 var dLetters = []rune("dDdk") // weight names that start like a dice operator
 
+// genWord draws a name; a word that is one of the language's keywords (the grammar refuses them as names: rule
+// keywords_test) gets a letter appended.
 func genWord(t *rapid.T, label string) string {
+	w := genWord0(t, label)
+	switch w {
+	case "while", "if", "else", "continue", "break", "return", "func":
+		return w + "x"
+	}
+	return w
+}
+
+func genWord0(t *rapid.T, label string) string {
 	var sb strings.Builder
 	switch rapid.IntRange(0, 9).Draw(t, label+"kind") {
 	case 0, 1, 2, 3, 4:
